@@ -73,9 +73,14 @@ def _conc_worker(args):
             status, results, msg = harness.run_concrete(pdef, inputs)
         except Exception as e:
             # the real code raised through the harness: the harness is expected to catch what the
-            # contract allows (vc.call); anything else is reported as a failed clause
-            status, results, msg = "ok", [("%s/raises" % pname, False,
-                                           "%s: %s" % (type(e).__name__, e))], ""
+            # contract allows (vc.call); anything else that passed through repository code is reported
+            # as a failed clause; an exception of the harness itself is an error, not a verdict
+            tb = traceback.extract_tb(e.__traceback__)
+            if any(f.filename.startswith(REPO + "/") for f in tb):
+                status, results, msg = "ok", [("%s/raises" % pname, False,
+                                               "%s: %s" % (type(e).__name__, e))], ""
+            else:
+                status, results, msg = "error", [], "harness exception %s: %s" % (type(e).__name__, e)
         if status == "skip":
             skipped += 1
             continue
@@ -232,7 +237,7 @@ def main(argv):
                 ob["replay"] = dict(file=path, exit=rc, failed=out.get("failed"), status=out.get("status"))
                 doc = json.load(open(os.path.join(HERE, path)))
                 doc["replay_result"] = out
-                if rc == 1 or (rc == 3 and out.get("status") == "exception"):
+                if rc == 1:
                     doc["mode"] = "replayed: the real code violates the clause on this input"
                     json.dump(doc, open(os.path.join(HERE, path), "w"), indent=1)
                     k = match_known(known, prop, e["name"], inputs, mods)
@@ -281,7 +286,7 @@ def main(argv):
             path = write_replay(prop, pname, f["obligation"] + "@bounded", f["inputs"],
                                 dict(verifier="bounded run-time contract monitor (L3)", detail=f["detail"]))
             rc, out = run_replay_file(os.path.join(HERE, path))
-            if rc in (1, 3):
+            if rc == 1:
                 k = match_known(known, prop, f["obligation"], f["inputs"], mods)
                 if k:
                     known_lines.append("KNOWN-FINDING: property=%s %s" % (prop, k["what"]))
